@@ -207,6 +207,8 @@ double GammaQint(double x, double a)
 		gammaP = Integrate(integrand, tMin, x, eps);
 	}
 
+	// The quadrature is accurate to about 1e-5 only; keep the result a probability.
+	gammaP = std::min(1.0, std::max(0.0, gammaP));
 	return 1.0 - gammaP;
 }
 
